@@ -23,6 +23,7 @@ RULE = ('every (batch, configuration vector) within the deviation bound; one cas
 ASSUMPTIONS = ['4 query genomes, 6 reference genomes; batches of <= 3; reference chunk size varied through the library only (the CLI does not expose it)']
 
 LABELS = ['g1', 'g2', 'g3', 'g4']
+XLABELS = ['empty1', 'empty2', 'E.faecalis_V583', 'P.fa.lciparum.fasta_x']
 DIMS = dict(
 	channel=['positional', 'list', 'list-no-final-newline', 'list-crlf', 'list-blank-lines', 'sigfile'],
 	comp=['stored', 'opposite', 'multi-member-gzip'],
@@ -38,6 +39,9 @@ def batches():
 	for m in (1, 2, 3):
 		out += [list(t) for t in itertools.permutations(LABELS, m)]
 	out += [['g1', 'g1'], ['g2', 'g4', 'g2'], ['g3', 'g3', 'g3']]
+	# genomes without any k-mer (empty signature) next to ordinary ones, in every position; tricky file names
+	out += [['empty1'], ['empty1', 'g1'], ['g1', 'empty1'], ['g2', 'empty1', 'g3'], ['empty1', 'empty2'], ['empty2', 'g4', 'empty1'],
+	        ['E.faecalis_V583'], ['P.fa.lciparum.fasta_x', 'g1'], ['g2', 'E.faecalis_V583', 'empty2']]
 	return out
 
 
@@ -48,6 +52,8 @@ def cases(tier):
 		dev = (1 if len(b) <= 2 else 0) if tier == 'quick' else 2
 		for v in deviations(DIMS, dev):
 			if v['channel'] == 'sigfile' and v['comp'] != 'stored':
+				continue
+			if v['comp'] != 'stored' and any(l in clifix.EXTRA_QUERIES for l in b):
 				continue
 			key = (tuple(b), tuple(sorted(v.items())))
 			if key not in seen:
@@ -72,6 +78,8 @@ def invoke(fx, d, batch, v, tag='out'):
 	if v['cores'] != 'unset':
 		args += ['-c', v['cores']]
 	src = {'stored': (fx.q, 'q'), 'opposite': (fx.qgz, 'qalt'), 'multi-member-gzip': (fx.qmulti, 'qmulti')}[v['comp']]
+	if any(l in clifix.EXTRA_QUERIES for l in batch):
+		src = (dict(fx.q, **fx.qx), 'q')           # the extra genomes exist in their stored form only
 	paths = [src[0][l] for l in batch]
 	if v['channel'] == 'positional':
 		args += paths
@@ -90,7 +98,7 @@ def invoke(fx, d, batch, v, tag='out'):
 		ks = clifix.kspec_of('P0')
 		sp = os.path.join(d, 'batch.gs')
 		ids = [f'id-{l}-{i}' for i, l in enumerate(batch)]
-		dump_signatures(sp, AnnotatedSignatures(SignatureArray([clifix.lib_signature('P0', clifix.QUERIES[l]) for l in batch], ks, dtype=ks.index_dtype), ids, SignaturesMeta()))
+		dump_signatures(sp, AnnotatedSignatures(SignatureArray([clifix.lib_signature('P0', dict(clifix.QUERIES, **clifix.EXTRA_QUERIES)[l]) for l in batch], ks, dtype=ks.index_dtype), ids, SignaturesMeta()))
 		args += ['-s', sp]
 		exp_labels = ids
 	code, stdout, exc, err = fixtures.run_cli(args)
@@ -226,7 +234,7 @@ def t_chunks():
 	with fixtures.workdir('c08c') as d:
 		fx = clifix.build(os.path.join(d, 'fx'), params=['P0'])
 		db = ReferenceDatabase.load_from_dir(fx.dbdir)
-		sigs = {l: clifix.lib_signature('P0', clifix.QUERIES[l]) for l in LABELS}
+		sigs = {l: clifix.lib_signature('P0', dict(clifix.QUERIES, **clifix.EXTRA_QUERIES)[l]) for l in LABELS + XLABELS}
 
 		def items_of(batch, chunksize, threads, strict):
 			omp_set_num_threads(threads)
@@ -235,7 +243,7 @@ def t_chunks():
 			JSONResultsExporter().export(buf, res)
 			return json.loads(buf.getvalue())['items']
 		for strict in (False, True):
-			base = {l: items_of([l], 1000, 2, strict)[0] for l in LABELS}
+			base = {l: items_of([l], 1000, 2, strict)[0] for l in LABELS + XLABELS}
 			for batch in batches():
 				for chunksize in (1, 2, 3, 5, 1000, None):
 					for threads in (1, 2, 16):
